@@ -57,6 +57,10 @@ structure TI (w : World) : Prop where
   sndS : ∀ a, a < nA w → ∀ m x, (m, some x) ∈ (actorAt w a).sysQ → inScope (nA w) x
   sndU : ∀ a, a < nA w → ∀ m x, (m, some x) ∈ (actorAt w a).userQ → inScope (nA w) x
   cur : ∀ a, a < nA w → inScopeO (nA w) (actorAt w a).curSender
+  /-- only the guard (actor 0) has no parent -/
+  root : ∀ a, a < nA w → (actorAt w a).parent = none → a = 0
+  /-- the channel `Shutdown` waits on is closed only after the guard has terminated -/
+  shut : w.closed = true → (actorAt w 0).status = .terminated
   /-- armed restart timers name an existing supervisor -/
   tim : ∀ p ∈ w.timers, p.1 < nA w
   behs : ∀ b ∈ w.behs, BehOK b
@@ -67,7 +71,9 @@ def freshChild (p : Aid) (beh : Nat) : Actor := { beh := beh, parent := some p }
 /-- the primitive updates of the model, with the guards under which the code performs them -/
 inductive Prim : World → World → Prop where
   /-- events, dead letters, timers, flags: the actor table is untouched -/
-  | frame (w w' : World) : w'.actors = w.actors → w'.behs = w.behs → w'.timers = w.timers → Prim w w'
+  | frame (w w' : World) : w'.actors = w.actors → w'.behs = w.behs → w'.timers = w.timers → w'.closed = w.closed → Prim w w'
+  /-- the root's `tryTerminated` closes the channel `Shutdown` waits on -/
+  | close (w : World) : (nA w ≤ ghostBase → (actorAt w 0).status = .terminated) → Prim w { w with closed := true }
   /-- `time.AfterFunc` of a restart decision / its firing -/
   | armTimer (w : World) (s v : Aid) : s < nA w → Prim w { w with timers := w.timers ++ [(s, v)] }
   | popTimer (w : World) (p : Aid × Aid) (rest : List (Aid × Aid)) : w.timers = p :: rest → Prim w { w with timers := rest }
@@ -143,7 +149,7 @@ theorem nA_mod (w : World) (a : Aid) (f : Actor → Actor) :
 
 theorem Prim.nA_le {w w' : World} (h : Prim w w') : nA w ≤ nA w' := by
   cases h with
-  | frame _ ha _ _ => simp [nA, ha]
+  | frame _ ha _ _ _ => simp [nA, ha]
   | spawn => simp [nA]
   | _ => simp [nA]
 
@@ -154,7 +160,7 @@ theorem Steps.nA_le {w w' : World} (h : Steps w w') : nA w ≤ nA w' := by
 
 theorem Prim.behs_eq {w w' : World} (h : Prim w w') : w'.behs = w.behs := by
   cases h with
-  | frame _ _ hb _ => exact hb
+  | frame _ _ hb _ _ => exact hb
   | _ => rfl
 
 theorem Steps.behs_eq {w w' : World} (h : Steps w w') : w'.behs = w.behs := by
@@ -201,7 +207,7 @@ theorem TI_modify (w : World) (a : Aid) (f : Actor → Actor) (h : TI w)
     split
     · rename_i hab; obtain ⟨hab, _⟩ := hab; subst hab; exact s1 hd
     · exact hd
-  refine ⟨?_, ?_, ?_, ?_, ?_, ?_, ?_, (by intro p hp; rw [hn]; exact h.tim p hp), h.behs⟩
+  refine ⟨?_, ?_, ?_, ?_, ?_, ?_, ?_, ?_, ?_, (by intro p hp; rw [hn]; exact h.tim p hp), h.behs⟩
   · intro c hc p hp
     rw [hn] at hc
     have hp' : (actorAt w c).parent = some p := by
@@ -258,7 +264,16 @@ theorem TI_modify (w : World) (a : Aid) (f : Actor → Actor) (h : TI w)
     split
     · rename_i hab; obtain ⟨hab, _⟩ := hab; subst hab; exact cc
     · exact h.cur b hb
-
+  · intro b hb hp
+    rw [hn] at hb
+    apply h.root b hb
+    rw [actorAt_mod] at hp
+    split at hp
+    · rename_i hab; obtain ⟨hab, _⟩ := hab; subst hab; rw [c1] at hp; exact hp
+    · exact hp
+  · intro hc
+    have h0 := h.shut hc
+    exact hst 0 (lt_of_terminated w 0 h0) h0
 
 theorem modify_ge (w : World) (a : Aid) (f : Actor → Actor) (h : nA w ≤ a) : w.actors.modify a f = w.actors := by
   apply List.ext_getElem?
@@ -268,10 +283,12 @@ theorem modify_ge (w : World) (a : Aid) (f : Actor → Actor) (h : nA w ≤ a) :
   · simp [hia]
 
 theorem TI_of_eq {w w' : World} (ha : w'.actors = w.actors) (hb : w'.behs = w.behs)
-    (ht : ∀ p ∈ w'.timers, p.1 < nA w) (h : TI w) : TI w' := by
+    (ht : ∀ p ∈ w'.timers, p.1 < nA w) (hc : w'.closed = true → (actorAt w 0).status = .terminated)
+    (h : TI w) : TI w' := by
   have hat : ∀ b, actorAt w' b = actorAt w b := by intro b; unfold actorAt; rw [ha]
   have hn : nA w' = nA w := by simp [nA, ha]
-  refine ⟨?_, ?_, ?_, ?_, ?_, ?_, ?_, (by intro p hp; rw [hn]; exact ht p hp), ?_⟩
+  refine ⟨?_, ?_, ?_, ?_, ?_, ?_, ?_, (by intro a hl hp; rw [hn] at hl; rw [hat] at hp; exact h.root a hl hp),
+    (by intro hcl; rw [hat]; exact hc hcl), (by intro p hp; rw [hn]; exact ht p hp), ?_⟩
   · intro c hc p hp; rw [hn] at hc; rw [hat] at hp; rw [hat, hat]; exact h.par c hc p hp
   · intro a hl who s hm; rw [hn] at hl; rw [hat] at hm
     rcases h.msg a hl who s hm with ⟨x, y⟩ | x
@@ -329,7 +346,7 @@ theorem TI_spawn (w : World) (p : Aid) (beh : Nat) (hp : p < nA w)
   have hbehs : w'.behs = w.behs := by subst hw'; rfl
   have htim : ∀ p ∈ w'.timers, p.1 < nA w' := by
     intro p hp; subst hw'; rw [hn]; exact Nat.lt_succ_of_lt (h.tim p hp)
-  refine ⟨?_, ?_, ?_, ?_, ?_, ?_, ?_, htim, ?_⟩
+  refine ⟨?_, ?_, ?_, ?_, ?_, ?_, ?_, ?_, ?_, htim, ?_⟩
   · intro c hc q hq
     rw [hn] at hc
     by_cases hcn : c = nA w
@@ -405,6 +422,19 @@ theorem TI_spawn (w : World) (p : Aid) (beh : Nat) (hp : p < nA w)
       by_cases hap : a = p
       · subst hap; rw [hpar]; exact h.cur a ha'
       · rw [hold a ha' hap]; exact h.cur a ha'
+  · intro a ha hpn
+    rw [hn] at ha
+    by_cases han : a = nA w
+    · subst han; rw [hnew] at hpn; simp [freshChild] at hpn
+    · have ha' : a < nA w := by omega
+      apply h.root a ha'
+      by_cases hap : a = p
+      · subst hap; rw [hpar] at hpn; exact hpn
+      · rw [hold a ha' hap] at hpn; exact hpn
+  · intro hc
+    have hc' : w.closed = true := by subst hw'; exact hc
+    have h0 := h.shut hc'
+    exact hstat 0 (lt_of_terminated w 0 h0) h0
   · rw [hbehs]; exact h.behs
 
 
@@ -412,16 +442,17 @@ theorem TI_spawn (w : World) (p : Aid) (beh : Nat) (hp : p < nA w)
 theorem TI_prim {w w' : World} (hp : Prim w w') (hb : nA w' ≤ ghostBase) (h : TI w) : TI w' := by
   have hbw : nA w ≤ ghostBase := Nat.le_trans hp.nA_le hb
   cases hp with
-  | frame _ ha hbe hti => exact TI_of_eq ha hbe (by intro p hp; rw [hti] at hp; exact h.tim p hp) h
+  | frame _ ha hbe hti hcl => exact TI_of_eq ha hbe (by intro p hp; rw [hti] at hp; exact h.tim p hp) (by intro hc; rw [hcl] at hc; exact h.shut hc) h
+  | close hd => exact TI_of_eq (w := w) rfl rfl h.tim (fun _ => hd hbw) h
   | armTimer s v hs =>
-    refine TI_of_eq (w := w) rfl rfl ?_ h
+    refine TI_of_eq (w := w) rfl rfl ?_ h.shut h
     intro p hp
     simp only [List.mem_append, List.mem_singleton] at hp
     rcases hp with hp | hp
     · exact h.tim p hp
     · subst hp; exact hs
   | popTimer p rest hr =>
-    refine TI_of_eq (w := w) rfl rfl ?_ h
+    refine TI_of_eq (w := w) rfl rfl ?_ h.shut h
     intro q hq
     exact h.tim q (by rw [hr]; exact List.mem_cons_of_mem _ hq)
   | upd a f hch hpa hre hst hsq huq hcu =>
@@ -574,7 +605,7 @@ theorem J_steps {w w' : World} (hs : Steps w w') (h : J w) : J w' := fun hb =>
 theorem Prim.parent_eq {w w' : World} (h : Prim w w') (a : Aid) (ha : a < nA w) :
     (actorAt w' a).parent = (actorAt w a).parent := by
   cases h with
-  | frame _ hact _ _ => unfold actorAt; rw [hact]
+  | frame _ hact _ _ _ => unfold actorAt; rw [hact]
   | upd b f _ hpa _ _ _ _ _ =>
     rw [actorAt_mod]; split
     · rename_i hab; obtain ⟨hab, _⟩ := hab; subst hab; exact hpa
@@ -586,6 +617,7 @@ theorem Prim.parent_eq {w w' : World} (h : Prim w w') (a : Aid) (ha : a < nA w) 
     · rw [if_neg (Nat.ne_of_lt ha)]
   | armTimer => rfl
   | popTimer => rfl
+  | close => rfl
   | _ => rw [actorAt_mod]; split <;> rfl
 
 theorem Steps.parent_eq {w w' : World} (h : Steps w w') (a : Aid) (ha : a < nA w) :
@@ -598,7 +630,7 @@ theorem Prim.dead_mono {w w' : World} (h : Prim w w') (a : Aid)
     (hd : (actorAt w a).status = .terminated) : (actorAt w' a).status = .terminated := by
   have ha := lt_of_terminated w a hd
   cases h with
-  | frame _ hact _ _ => unfold actorAt at *; rw [hact]; exact hd
+  | frame _ hact _ _ _ => unfold actorAt at *; rw [hact]; exact hd
   | upd b f _ _ _ hst _ _ _ =>
     rw [actorAt_mod]; split
     · rename_i hab; obtain ⟨hab, _⟩ := hab; subst hab; exact hst.mpr hd
@@ -611,6 +643,7 @@ theorem Prim.dead_mono {w w' : World} (h : Prim w w') (a : Aid)
   | term b _ _ => rw [actorAt_mod]; split <;> first | rfl | exact hd
   | armTimer => exact hd
   | popTimer => exact hd
+  | close => exact hd
   | _ => rw [actorAt_mod]; split <;> exact hd
 
 theorem Steps.dead_mono {w w' : World} (h : Steps w w') (a : Aid)
